@@ -30,23 +30,33 @@ def dir_s(d, style='fp'):
 
 
 class Impl:
-    def __init__(self, await_all, style='fp', reason='UPLOAD_REJECTED'):
+    def __init__(self, await_all, style='fp', reason='UPLOAD_REJECTED', auth=False):
         self.style = style
         self.reason = (' REASON=' + reason) if reason else ''   # control-spec: UPLOAD_REJECTED, UNEXPECTED, … or no REASON at all
         from harness.simtor import SimTor
         from txtorcon import TorConfig
-        from txtorcon.onion import EphemeralOnionService
+        from txtorcon.onion import EphemeralOnionService, EphemeralAuthenticatedOnionService, AuthBasic
         self.st = SimTor().connect()
         self.cfg = TorConfig(self.st.proto)
         assert self.cfg.post_bootstrap.called
         self.st.hold_prefixes.add('ADD_ONION')
         self.result = []
         self.progress = []
-        d = EphemeralOnionService.create(None, self.cfg, ['80 127.0.0.1:8080'], version=3,
-                                         await_all_uploads=await_all,
-                                         progress=lambda p, t, s: self.progress.append(round(p, 1)))
-        d.addCallbacks(lambda r: self.result.append('ok'), lambda f: self.result.append('fail') and None)
         self.own = 'svc1abcdefghijkl'
+        if auth:
+            # basic client authorisation (version 2): Tor hands out a real RSA key; the service's events carry its permanent id
+            pem, permid = rsa_key_pem()
+            body = ''.join(pem.decode('ascii').strip().split('\n')[1:-1])
+            self.st.real_rsa = ('RSA1024:' + body, permid)
+            self.own = permid
+            d = EphemeralAuthenticatedOnionService.create(None, self.cfg, ['80 127.0.0.1:8080'], auth=AuthBasic(['alice']), version=2,
+                                                          await_all_uploads=await_all,
+                                                          progress=lambda p, t, s: self.progress.append(round(p, 1)))
+        else:
+            d = EphemeralOnionService.create(None, self.cfg, ['80 127.0.0.1:8080'], version=3,
+                                             await_all_uploads=await_all,
+                                             progress=lambda p, t, s: self.progress.append(round(p, 1)))
+        d.addCallbacks(lambda r: self.result.append('ok'), lambda f: self.result.append('fail') and None)
         self.other = 'otherservice0001'
 
     def do(self, op):
@@ -160,7 +170,7 @@ def run_impl(c):
         finally:
             last = im.finish()
         return [last]
-    im = Impl(c['await_all'], c.get('names', 'fp'), c.get('reason', 'UPLOAD_REJECTED'))
+    im = Impl(c['await_all'], c.get('names', 'fp'), c.get('reason', 'UPLOAD_REJECTED'), auth=(c.get('kind') == 'ephauth'))
     trace = []
     for op in c['ops']:
         trace.append(im.do(op))
@@ -227,8 +237,11 @@ def gen_cases(rng, tier):
             yield {'kind': rng.choice(['fs', 'fsauth']), 'await_all': rng.random() < 0.5, 'ops': [['reply']] + evs, 'names': rng.choice(['fp', 'longname']),
                    'reason': rng.choice(['UPLOAD_REJECTED', 'UNEXPECTED', None])}
             continue
-        yield {'await_all': rng.random() < 0.5, 'ops': gen_history(rng), 'names': rng.choice(['fp', 'fp', 'longname', 'named']),
-               'reason': rng.choice(['UPLOAD_REJECTED', 'UPLOAD_REJECTED', 'UNEXPECTED', None])}
+        c = {'await_all': rng.random() < 0.5, 'ops': gen_history(rng), 'names': rng.choice(['fp', 'fp', 'longname', 'named']),
+             'reason': rng.choice(['UPLOAD_REJECTED', 'UPLOAD_REJECTED', 'UNEXPECTED', None])}
+        if k % 5 == 3:
+            c['kind'] = 'ephauth'       # EphemeralAuthenticatedOnionService.create (basic authorisation)
+        yield c
     if tier == 'thorough':
         scripts = []
         for d in [1, 2, 3]:
@@ -302,7 +315,7 @@ def run_cases(cases, drv, tier):
         fired = im and im[-1][0] != 'none'
         own_evs = sum(1 for op in c['ops'] if op[0] == 'ev' and op[2])
         lost = any(op[0] == 'lost' for op in c['ops'])
-        tags = [{'fs': 'filesystem', 'fsauth': 'filesystem-authenticated'}.get(c.get('kind'), 'ephemeral'), 'all' if c['await_all'] else 'any', 'outcome=' + (im[-1][0] if im else 'none'),
+        tags = [{'fs': 'filesystem', 'fsauth': 'filesystem-authenticated', 'ephauth': 'ephemeral-authenticated'}.get(c.get('kind'), 'ephemeral'), 'all' if c['await_all'] else 'any', 'outcome=' + (im[-1][0] if im else 'none'),
                 'reply@%s' % ('start' if c['ops'] and c['ops'][0][0] == 'reply' else 'later'), 'H' if h else 'outsideH:' + why] + (['connection-lost'] if lost else [])
         keep_spec = h or why == 'foreign-uploaded-shared-dir'
         res.append(Result(c, im, model, spec if keep_spec else None, in_h=h, nontrivial=bool(fired) or own_evs >= 3, tags=tags))
